@@ -366,16 +366,20 @@ theorem alignDirective_safe {env : Env} {st : St} (h : Good true st) (hb : env.p
         obtain ⟨g, e⟩ := hre _ _ rfl
         exact ⟨by simp, fun st' x eq => by cases eq; exact ⟨g, e⟩⟩
       | ok a' =>
-        simp only [hact, if_false]
-        cases a' with
-        | const v =>
+        simp only
+        cases hseg : st.seg.active with
+        | none => simp [hseg] at hact
+        | some seg =>
           simp only
-          split
-          · rename_i hv
-            exact seg_result_safe h env line col (.align v.toNat)
-              (by show 0 < v.toNat; omega) (fun _ _ e => by cases e) _
-          · exact safe_push h ..
-        | _ => exact safe_push h ..
+          cases a' with
+          | const v =>
+            simp only
+            split
+            · split
+              · exact safe_ok h _
+              · exact seg_result_safe h env line col (.append _) trivial (fun _ _ e => by cases e) _
+            · exact safe_push h ..
+          | _ => exact safe_push h ..
 
 theorem constDirective_safe {env : Env} {st : St} (h : Good true st) (hb : env.paths.isEmpty = false)
     (line col : Nat) (args : List Arg) : Safe true st (constDirective env st line col args) := by
